@@ -23,6 +23,7 @@ from sa.terms import T
 from sa.pyfront import Program
 
 RULES = {
+    "R-C18-k": "weighted quantile, invariance under rescaling all weights: quantities derived from the weights are compared only with 0 or with each other, never with an absolute tolerance (isclose / allclose default atol) or a non-zero literal",
     "R-C18-j": "standard deviation, dispatch and arithmetic: one column is handed over whole, several columns are filled one by one (column i of every row array into column i of every region, for all i); a cell needs at least 2 rows; both fill routines scale the weighted variance by N / (N - 1); valid and missing rows are counted per column",
     "R-C18-i": "minimum / maximum: a cell that receives a value is marked valid in the same breath (value store and validity store under the same guards), per branch: ignoring - the valid rows of the cell, non-empty; propagating - all rows, non-empty and all valid",
     "R-C18-h": "aggregate constructors do not overwrite the caller's arrays (imported from the C17 frame analysis): NaN-seeding or zero-filling the caller's own array changes what every later computation over it - the other cube, a group-by, the next statistic - sees",
@@ -292,6 +293,72 @@ def complete_cases_axis(prog, rep, name):
     rep.check(v == want, "R-C18-c", where, cons, "numpy.all(validity%s, axis=%s) for two dimensions" % (".T" if transposed else "", sorted(v)),
               "for a (rows, columns) validity the reduction runs over axis %s of validity%s: %s" % (sorted(v), ".T" if transposed else "", "one flag per column instead of per row" if v else "nothing is reduced"),
               witness={"inputs": "validity of shape (3, 2), ignore_missing=True"})
+
+
+def rule_k(prog, rep):
+    """Scale invariance of the weighted quantile: every quantity derived from the weights is homogeneous of degree 1 in
+    them, so the result cannot change under w -> c*w as long as such a quantity is only ever compared with 0 or with
+    another weight-derived quantity.  An ABSOLUTE threshold (isclose / allclose with their default atol, a comparison
+    with a non-zero literal) makes cells with small total weight behave differently from the same cells rescaled."""
+    import ast
+    fi = prog.func("xfuncs", "xfunc_quantile.weighted_quantile")
+    NEUTRAL = {"len", "isnan", "isfinite", "argsort", "digitize", "searchsorted", "nonzero", "flatnonzero", "shape", "size", "ndim", "any", "all"}
+
+    def tainted_expr(e, T):
+        """e mentions a weight-derived name outside a scale-free wrapper (len, isnan, argsort, digitize, comparisons)"""
+        if isinstance(e, ast.Name):
+            return e.id in T
+        if isinstance(e, ast.Compare):
+            return False
+        if isinstance(e, ast.Call):
+            f = e.func
+            nm = f.attr if isinstance(f, ast.Attribute) else (f.id if isinstance(f, ast.Name) else None)
+            if nm in NEUTRAL:
+                return False
+            parts = list(e.args) + [k.value for k in e.keywords] + ([f.value] if isinstance(f, ast.Attribute) else [])
+            return any(tainted_expr(x, T) for x in parts)
+        if isinstance(e, ast.Attribute):
+            return e.attr not in NEUTRAL and tainted_expr(e.value, T)
+        if isinstance(e, ast.Subscript):
+            return tainted_expr(e.value, T)  # indexing by a weight-derived index does not scale
+        if isinstance(e, ast.BinOp) and isinstance(e.op, (ast.Div, ast.FloorDiv)) and tainted_expr(e.left, T) and tainted_expr(e.right, T):
+            return False  # a ratio of two weight-derived quantities is scale-free
+        return any(tainted_expr(c, T) for c in ast.iter_child_nodes(e) if isinstance(c, ast.expr))
+
+    T = {a.arg for a in fi.node.args.args if a.arg in ("weights", "w")}
+    if not T:
+        rep.undecided("R-C18-k", fi.fq, "weighted quantile: scale invariance", "no `weights` parameter")
+        return
+    for _ in range(4):
+        for n in ast.walk(fi.node):
+            if isinstance(n, ast.Assign) and tainted_expr(n.value, T):
+                for t in n.targets:
+                    for x in ast.walk(t):
+                        if isinstance(x, ast.Name):
+                            T.add(x.id)
+    n_sites = 0
+    bad = []
+    for n in ast.walk(fi.node):
+        if isinstance(n, ast.Call):
+            f = n.func
+            nm = f.attr if isinstance(f, ast.Attribute) else (f.id if isinstance(f, ast.Name) else None)
+            if nm in ("isclose", "allclose", "adjust_zeros", "assert_allclose") and any(tainted_expr(a, T) for a in n.args):
+                n_sites += 1
+                atol = [k.value for k in n.keywords if k.arg in ("atol", "abs_tol")]
+                if nm == "adjust_zeros" or not (atol and isinstance(atol[0], ast.Constant) and atol[0].value == 0):
+                    bad.append((n.lineno, "%s(...) applies an absolute tolerance to %s" % (nm, ast.unparse(n.args[0])[:30])))
+        if isinstance(n, ast.Compare) and len(n.ops) == 1 and isinstance(n.ops[0], (ast.Lt, ast.LtE, ast.Gt, ast.GtE, ast.Eq, ast.NotEq)):
+            a, b = n.left, n.comparators[0]
+            for x, y in ((a, b), (b, a)):
+                if tainted_expr(x, T) and isinstance(y, ast.Constant) and isinstance(y.value, (int, float)) and not isinstance(y.value, bool):
+                    n_sites += 1
+                    if y.value != 0:
+                        bad.append((n.lineno, "%s compares a weight-derived quantity with the literal %r" % (ast.unparse(n)[:40], y.value)))
+    for line, what in bad:
+        rep.violated("R-C18-k", "%s@%d" % (fi.fq, line), "weighted quantile: weight-derived quantities meet no absolute threshold", what + ": cells whose total weight is below it change their result when all weights are rescaled",
+                     witness={"inputs": "weights w and w * 2**-40 over the same rows: the second comes back missing / different"})
+    if not bad:
+        rep.proved("R-C18-k", fi.fq, "weighted quantile: weight-derived quantities meet no absolute threshold", "%d weight-derived names %s, %d comparisons with literals (all with 0)" % (len(T), sorted(T), n_sites))
 
 
 def rule_e(prog, rep):
@@ -651,6 +718,7 @@ def main(tier):
     rule_g(prog, rep)
     rule_j(prog, rep)
     rule_i(prog, rep)
+    rule_k(prog, rep)
     import c17
     sub17 = core.Report("C17", level="other", rules=c17.RULES, tier=tier)
     st17 = {"events": 0, "mods": 0, "diagnostic": {}, "exceptions": {}, "regions": 0, "shortcuts": 0}
